@@ -30,6 +30,9 @@ def cases(tier: str):
     for body, ret in noncommutative_programs():
         yield dict(name="main", params=[["x", "<nodefault>"]], body=body, ret=ret, subs=[], env=[], configs=["mc1", "mc3"], flavours=[False, True],
                    explore=False, nested=True)
+    for body, ret in twin_constant_programs():
+        yield dict(name="main", params=[["x", "<nodefault>"]], body=body, ret=ret, subs=[], env=[], configs=["mc1", "mc3"], flavours=[False, True],
+                   explore=False, nested=True)
     for body, ret in wide_programs():
         for config in ("mc3", "res_rot"):
             yield dict(name="main", params=[["x", "<nodefault>"]], body=body, ret=ret, subs=[], env=[], configs=[config], flavours=[False, True],
@@ -77,6 +80,28 @@ def wide_programs():
         ["list", [v("d"), v("e")]]
     yield [_call("pair_u", [X], ["a", "a2"]), _call("k0", [], "b"), _call("mkd", [v("b")], "c"), _call("add", [v("a2")], "d", kwargs={"y": v("c", "l", 0)}),
            {"k": "op", "op": "+", "a": v("a"), "b": v("b"), "out": "e"}], ["tuple", [v("d"), v("e")]]
+
+
+TWINS = [(1, True, 1.0), (0, False, 0.0), (2, 2.0)]
+
+
+def twin_constant_programs():
+    """two constants of one describing function that compare equal but are different values (1 / True / 1.0 ...): as
+    positional argument, keyword argument, activation flag, operand and member of the return value, in both orders"""
+    import itertools
+    X = ["p", "x"]
+
+    def v(n, *path):
+        return ["v", n, list(path)]
+
+    for grp in TWINS:
+        for c1, c2 in itertools.permutations(grp, 2):
+            yield [_call("ident", [["c", c1]], "a"), _call("ident", [["c", c2]], "b")], ["tuple", [v("a"), v("b")]]
+            yield [_call("ident", [["c", c1]], "a"), _call("add", [X], "b", kwargs={"y": ["c", c2]})], ["list", [v("a"), v("b")]]
+            yield [_call("add", [X], "a", kwargs={"y": ["c", c1]}), _call("strf", [["c", c2]], "b")], ["tuple", [v("a"), v("b"), ["c", c1], ["c", c2]]]
+            yield [_call("ident", [["c", c2]], "a", flag=["c", c1]), _call("ident", [["c", c1]], "b", flag=["c", c2])], ["tuple", [v("a"), v("b")]]
+            yield [_call("inc", [X], "a"), {"k": "op", "op": "+", "a": v("a"), "b": ["c", c1], "out": "b"},
+                   {"k": "op", "op": "*", "a": ["c", c2], "b": v("a"), "out": "c"}], ["dict", {"b": v("b"), "c": v("c"), "k": ["c", c2]}]
 
 
 def noncommutative_programs():
